@@ -327,9 +327,9 @@ reg("C38", "model_checking", "TLC exhaustive on EagerDecode (two receive paths, 
     "DESIGN.md section 5 C38", driver="c38", entry="run")
 
 reg("C39", "exploration", "TLA+ reference pipelines (exact / 0..255 scaling in both orientations / nearest multiple of a step; DeviceLoop.tla, model-level statements checked by TLC as assumptions) and law LoopOk evaluated by TLC on recorded setter -> queue -> outgoing processing -> state sessions",
-    "A started XKNX under virtual time with a confirming interface: switches (inverted or not), light (brightness, tunable white, colour temperature in both encodings, RGB, RGBW, hue and "
+    "A started XKNX under virtual time with a confirming interface: switches (inverted or not), light (brightness, tunable white, colour temperature in both encodings, RGB, RGBW, xyY command sequences, hue and "
     "saturation), covers with every combination of inverted position / angle (positions 0..100, travel time elapsed before reading), fan (percent and steps), climate target temperature "
-    "directly and through a setpoint shift (DPT 6.010 with steps 0.1 / 0.2 / 0.5 / 1.0 and DPT 9.002, writable and read-only target temperature, shifts on and between steps), climate modes "
+    "directly and through a setpoint shift (DPT 6.010 with steps 0.05 / 0.1 / 0.2 / 0.25 / 0.5 / 1.0 and DPT 9.002, writable and read-only target temperature, shifts on and between steps), climate modes "
     "(byte and binary group objects), numeric values and expose sensors of ten value types, raw values, notifications. Each setter is awaited, the queue sends and processes the outgoing "
     "telegrams, the state property is read; TLC judges the state against the reference pipeline of the configuration (ties go either way).",
     "Trusted: TLC; which pipeline applies to which configuration (a table in the driver); the mocked interface confirms every frame.",
